@@ -329,3 +329,164 @@ func isLoadNextOf(f *fn, e ast.Expr, loadFn *types.Func, next *types.Var, base t
 	sel, ok := ast.Unparen(stripAddr(call.Args[0])).(*ast.SelectorExpr)
 	return ok && flow.FieldOf(f.Info, sel) == next && flow.ObjOf(f.Info, sel.X) == base && base != nil
 }
+
+func init() {
+	register(&core.Rule{ID: "C13.5", Prop: "C13", MinSites: 5,
+		Desc: "the compare-and-swaps move the right pointers (Michael–Scott shape): a CAS on q.tail expects the tail that was loaded and installs the node loaded from that tail's next (helping) or the node this call just linked; a CAS on q.head expects the loaded head, installs the node loaded from that head's next, and its outcome is tested (exactly one per Dequeue: a head that moves without the value being returned loses a task); a CAS on a node's next links the fresh node behind the loaded tail; head, tail and next are never written by a plain atomic store outside the constructor; the fresh node carries the task that was passed in",
+		Run:  runC13_5})
+}
+
+func runC13_5(c *core.Ctx) {
+	enq, deq := getFn(c, "pkg/queue", "lockFreeQueue.Enqueue"), getFn(c, "pkg/queue", "lockFreeQueue.Dequeue")
+	casFn, loadFn := c.P.Func("pkg/queue", "cas"), c.P.Func("pkg/queue", "load")
+	head := c.P.Field("pkg/queue", "lockFreeQueue", "head")
+	tail := c.P.Field("pkg/queue", "lockFreeQueue", "tail")
+	next := c.P.Field("pkg/queue", "node", "next")
+	value := c.P.Field("pkg/queue", "node", "value")
+	if enq == nil || deq == nil || !c.Need("queue.cas", casFn) || !c.Need("queue.load", loadFn) || !c.Need("head", head) || !c.Need("tail", tail) || !c.Need("next", next) || !c.Need("value", value) {
+		return
+	}
+	for _, f := range []*fn{enq, deq} {
+		isCAS := func(call *ast.CallExpr) bool {
+			return len(call.Args) == 3 && (flow.IsCall(f.Info, call, casFn) || flow.IsPkgFunc(f.Info, call, "sync/atomic", "CompareAndSwapPointer"))
+		}
+		// what a local was loaded from: (field, base object) of load(&base.field)
+		loadedFrom := func(e ast.Expr) (*types.Var, types.Object) {
+			o := flow.ObjOf(f.Info, e)
+			if o == nil {
+				return nil, nil
+			}
+			d := defOf(f.Info, f.Decl.Body, o)
+			if d == nil {
+				return nil, nil
+			}
+			call, ok := ast.Unparen(d).(*ast.CallExpr)
+			if !ok || len(call.Args) != 1 || !flow.IsCall(f.Info, call, loadFn) {
+				return nil, nil
+			}
+			sel, ok := ast.Unparen(stripAddr(call.Args[0])).(*ast.SelectorExpr)
+			if !ok {
+				return nil, nil
+			}
+			return flow.FieldOf(f.Info, sel), flow.ObjOf(f.Info, sel.X)
+		}
+		// the fresh node of Enqueue
+		var fresh types.Object
+		if f == enq {
+			ast.Inspect(f.Decl.Body, func(n ast.Node) bool {
+				if as, ok := n.(*ast.AssignStmt); ok && len(as.Lhs) == 1 && len(as.Rhs) == 1 {
+					r := ast.Unparen(as.Rhs[0])
+					if ue, ok := r.(*ast.UnaryExpr); ok && ue.Op == token.AND {
+						if cl, ok := ast.Unparen(ue.X).(*ast.CompositeLit); ok {
+							if tn, ok := f.Info.TypeOf(cl).(*types.Named); ok && tn.Obj().Name() == "node" {
+								fresh = flow.ObjOf(f.Info, as.Lhs[0])
+								carries := false
+								for _, el := range cl.Elts {
+									if kv, ok := el.(*ast.KeyValueExpr); ok {
+										if id, ok := kv.Key.(*ast.Ident); ok && f.Info.Uses[id] == types.Object(value) && flow.ObjOf(f.Info, kv.Value) == types.Object(f.param(0)) {
+											carries = true
+										}
+									}
+								}
+								if !carries && len(cl.Elts) == 1 {
+									if _, isKV := cl.Elts[0].(*ast.KeyValueExpr); !isKV && flow.ObjOf(f.Info, cl.Elts[0]) == types.Object(f.param(0)) {
+										carries = true
+									}
+								}
+								c.Check(carries, f.Name, "fresh node carries the task", cl.Pos(), "value: the parameter", "the node Enqueue links does not carry the task it was given: a dequeuer receives nil (or another task) for it")
+							}
+						}
+					}
+				}
+				return true
+			})
+			if fresh == nil {
+				c.Violate(f.Name, "fresh node carries the task", f.Decl.Pos(), "Enqueue allocates no node")
+			}
+		}
+		// must-facts: the link CAS succeeded on this path; the loaded head and the loaded tail are the same node
+		const (
+			fLinked = 1 << iota
+			fHeadIsTail
+		)
+		p := &flow.Problem{Must: true}
+		p.Edge = func(e *flow.Edge, in uint64) uint64 {
+			if e.Cond != nil && e.Tag == nil && e.Sense {
+				if call, ok := ast.Unparen(e.Cond).(*ast.CallExpr); ok && isCAS(call) && flow.FieldOf(f.Info, stripAddr(call.Args[0])) == next {
+					in |= fLinked
+				}
+			}
+			if l, r, eq, ok := flow.Equality(e); ok && eq {
+				lf, lb := loadedFrom(l)
+				rf, rb := loadedFrom(r)
+				if lb != nil && rb != nil && lb == rb && ((lf == head && rf == tail) || (lf == tail && rf == head)) {
+					in |= fHeadIsTail
+				}
+			}
+			return in
+		}
+		sol := f.Graph().Solve(p)
+		discarded := map[*ast.CallExpr]bool{}
+		ast.Inspect(f.Decl.Body, func(n ast.Node) bool {
+			if es, ok := n.(*ast.ExprStmt); ok {
+				if call, ok := ast.Unparen(es.X).(*ast.CallExpr); ok {
+					discarded[call] = true
+				}
+			}
+			return true
+		})
+		k, headCAS := 0, 0
+		sol.Walk(func(b *flow.Block, i int, n ast.Node, before uint64) {
+			for _, call := range flow.Calls(n) {
+				if flow.IsPkgFunc(f.Info, call, "sync/atomic", "StorePointer") || flow.IsPkgFunc(f.Info, call, "sync/atomic", "SwapPointer") {
+					k++
+					c.Violate(f.Name, "pointer update #"+itoa(k), call.Pos(), "head/tail/next is written by an unconditional atomic store: unlike a compare-and-swap it can move the pointer backwards over a concurrent update (nodes are skipped or served twice)")
+					continue
+				}
+				if !isCAS(call) {
+					continue
+				}
+				k++
+				target := ast.Unparen(stripAddr(call.Args[0]))
+				fld := flow.FieldOf(f.Info, target)
+				oldFld, oldBase := loadedFrom(call.Args[1])
+				newFld, newBase := loadedFrom(call.Args[2])
+				oldObj := flow.ObjOf(f.Info, call.Args[1])
+				good, why := false, ""
+				switch fld {
+				case tail:
+					helping := newFld == next && newBase == oldObj && oldObj != nil
+					if !helping && newFld == next && newBase != nil && before&fHeadIsTail != 0 {
+						// Dequeue's help: next was loaded from the head, which is the tail on this path
+						if d := defOf(f.Info, f.Decl.Body, newBase); d != nil && isLoadOf(f, d, loadFn, head) {
+							helping = true
+						}
+					}
+					afterLink := fresh != nil && flow.ObjOf(f.Info, call.Args[2]) == fresh && before&fLinked != 0
+					good = oldFld == tail && (helping || afterLink)
+					why = "a CAS on q.tail must expect the loaded tail and install the node loaded from that tail's next, or the node this call has just linked: otherwise the tail can point at a node that is not in the list, and everything enqueued behind it is lost"
+				case head:
+					headCAS++
+					good = oldFld == head && newFld == next && newBase == oldObj && oldObj != nil && !discarded[call]
+					why = "a CAS on q.head must expect the loaded head, install the node loaded from that head's next, and have its outcome tested: a head that is advanced without the value being handed out loses that task"
+				case next:
+					sel, _ := target.(*ast.SelectorExpr)
+					var baseObj types.Object
+					if sel != nil {
+						baseObj = flow.ObjOf(f.Info, sel.X)
+					}
+					bf, _ := loadedFrom(sel.X)
+					okOld := flow.IsNil(f.Info, call.Args[1]) || (oldFld == next && oldBase == baseObj)
+					good = sel != nil && bf == tail && okOld && fresh != nil && flow.ObjOf(f.Info, call.Args[2]) == fresh
+					why = "the link CAS must hang the fresh node behind the loaded tail (expecting the next that was loaded from it): otherwise a node is linked in the middle of the list or an existing successor is overwritten"
+				default:
+					why = "a compare-and-swap on something other than q.head, q.tail or a node's next"
+				}
+				c.Check(good, f.Name, "CAS #"+itoa(k)+" on "+exprStr(target), call.Pos(), "operands as in the Michael–Scott queue", why)
+			}
+		})
+		if f == deq {
+			c.Check(headCAS == 1, f.Name, "one head CAS", f.Decl.Pos(), "the head moves at one place, where the value is returned", "Dequeue has "+itoa(headCAS)+" compare-and-swaps on q.head: every advance of the head must be the one whose success returns the value read from the new head")
+		}
+	}
+}
